@@ -1,5 +1,5 @@
 """Unit registry: which assembled Verus files exist and which properties each carries."""
-from units import expr, builder, smallslices, tables, dfa, bindings, elim, regexp, render
+from units import expr, builder, smallslices, tables, dfa, bindings, elim, regexp, render, fmtunit
 
 REGISTRY = {
     'expr':     lambda repo, sd, canary=False: expr.build(repo, sd, canary=canary),
@@ -16,24 +16,28 @@ REGISTRY = {
     'elim':     lambda repo, sd, canary=False: elim.build(repo, sd, canary=canary),
     'regexp':   lambda repo, sd, canary=False: regexp.build(repo, sd, canary=canary),
     'render':   lambda repo, sd, canary=False: render.build(repo, sd, canary=canary),
+    'format':   lambda repo, sd, canary=False: fmtunit.build(repo, sd, canary=canary),
     'trie':     lambda repo, sd, canary=False: dfa.build_trie(repo, sd, canary=canary),
     'wasm':     lambda repo, sd, canary=False: bindings.build_wasm(repo, sd, canary=canary),
     'cli':      lambda repo, sd, canary=False: bindings.build_cli(repo, sd, canary=canary),
 }
 # units whose obligations carry a property (an obligation counts for a property only if its clause is tagged with it)
 PROP_UNITS = {
-    'C01': ['expr', 'elim', 'regexp', 'caseconv', 'split', 'rep', 'dfa', 'dfa_kf', 'trie'],
-    'C02': ['expr', 'elim', 'regexp', 'dfa', 'gates', 'render'],
+    'C01': ['expr', 'elim', 'regexp', 'caseconv', 'split', 'rep', 'dfa', 'dfa_kf', 'trie', 'render', 'format'],
+    'C02': ['expr', 'elim', 'regexp', 'dfa', 'gates', 'render', 'format'],
     'C03': ['classify', 'gates', 'trie'],
     'C04': ['caseconv', 'regexp', 'render'],
-    'C07': ['expr', 'elim', 'regexp', 'builder', 'split', 'caseconv', 'rep', 'gates', 'render', 'dfa', 'trie', 'cli', 'escape', 'classify'],
-    'C08': ['render', 'expr', 'regexp'],
+    'C05': ['trie', 'render', 'rep'],
+    'C06': ['render', 'format'],
+    'C07': ['expr', 'elim', 'regexp', 'builder', 'split', 'caseconv', 'rep', 'gates', 'render', 'format', 'dfa', 'trie', 'cli', 'escape', 'classify'],
+    'C08': ['render', 'expr', 'regexp', 'format'],
     'C09': ['tables', 'classify'],
     'C10': ['builder', 'regexp', 'gates'],
-    'C11': ['escape', 'builder'],
+    'C11': ['escape', 'builder', 'format'],
     'C12': ['cli', 'gates'],
     'C13': ['rep', 'builder', 'render', 'trie'],
-    'C16': ['expr', 'elim', 'regexp', 'dfa', 'dfa_kf', 'trie', 'render'],
+    'C15': ['render'],
+    'C16': ['expr', 'elim', 'regexp', 'dfa', 'dfa_kf', 'trie', 'render', 'format'],
     'C17': ['wasm'],
 }
 # dfa_kf holds exactly the known-finding clause (its canary would be redundant with dfa's); tables has no function with a context
